@@ -386,67 +386,90 @@ def run_device_membership(mutate=None):
     return dict(obls=obls, paths=n, sources=[L.info()], consistent=sym.consistent())
 
 
-def run_device_transforms(mutate=None):
-    """Device.rotate / Device.scale: voltage probe points go through the SAME library map, with the same parameters, as every polygon of the
-    device (identity-level contract over stubs of shapely.affinity / Point; candidates are replayed natively)"""
+def run_device_transforms(mutate=None, prefixes=None):
+    """Device.rotate / Device.scale / Device.translate(inplace=False) / Device.copy, stated over the RESULT (how it is assembled - copy then in-place
+    maps, or a new Device from mapped polygons - is free): every polygon of the result descends from the corresponding polygon of the receiver and
+    was mapped exactly once, with the given parameters; the receiver's polygons are not mapped; nothing is shared; voltage probe points go through
+    the same map; name, layer and LENGTH UNITS are those of the receiver (the unit system is part of the device, C08).  Polygons are recording
+    stand-ins; probe points are mapped by the real shapely.affinity and compared with the closed-form map."""
+    import math
+    import numpy as np
     mut = [(o, n) for (m, o, n) in (mutate or []) if m == D_]
-    calls = []
-
-    class PT:
-        def __init__(self, xy, how=None):
-            self.xy, self.how = xy, how
-            self.coords = [self]
-
-    class Aff:
-        @staticmethod
-        def rotate(g, degrees, origin=None, use_radians=False):
-            calls.append(("rotate", g, degrees, origin))
-            return PT(g.xy, ("rotate", degrees, origin))
-
-        @staticmethod
-        def scale(g, xfact=1.0, yfact=1.0, origin=None):
-            calls.append(("scale", g, xfact, yfact, origin))
-            return PT(g.xy, ("scale", xfact, yfact, origin))
-
-    class NPS:
-        @staticmethod
-        def concatenate(parts, axis=0):
-            return [x for p_ in parts for x in p_]
-    L = instrument.load(D_, rebind={"affinity": Aff, "Point": PT, "np": NPS}, mutate=mut, vc=vcm.VC())
+    L = instrument.load(D_, mutate=mut, vc=vcm.VC())
     Device = L["Device"]
 
+    class Poly:
+        mesh = True
+        is_valid = True
+
+        def __init__(self, name, root=None, hist=()):
+            self.name, self.root, self.hist = name, root or self, list(hist)
+            self.points = np.array([[0.0, 0.0], [1.0, 0.0], [0.0, 1.0], [0.0, 0.0]])
+
+        def copy(self):
+            return Poly(self.name, self.root, self.hist)
+
+        def _map(self, what, inplace):
+            tgt = self if inplace else self.copy()
+            tgt.hist.append(what)
+            return tgt
+
+        def rotate(self, degrees, origin=(0, 0), inplace=False):
+            return self._map(("rotate", degrees, tuple(origin)), inplace)
+
+        def scale(self, xfact=1, yfact=1, origin=(0, 0), inplace=False):
+            return self._map(("scale", xfact, yfact, tuple(origin)), inplace)
+
+        def translate(self, dx=0, dy=0, inplace=False):
+            return self._map(("translate", dx, dy), inplace)
+
+        def contains_points(self, pts, **kw):
+            return np.full(len(np.atleast_2d(pts)), self.name == "film", dtype=bool)
+
     def body():
-        for op in ("rotate", "scale"):
-            del calls[:]
-            moved = []
-
-            class Poly:
-                def __init__(self, name): self.name = name
-                def rotate(self, degrees, origin=(0, 0), inplace=False): moved.append((self.name, "rotate", degrees, origin, inplace)); return self
-                def scale(self, xfact=1, yfact=1, origin=(0, 0), inplace=False): moved.append((self.name, "scale", xfact, yfact, origin, inplace)); return self
-
-            def mk():
-                d = Device.__new__(Device)
-                d.name, d._length_units, d.mesh = "d", "um", None
-                d.film, d.holes, d.terminals = Poly("film"), [Poly("h1"), Poly("h2")], (Poly("src"),)
-                d.probe_points = ["P1", "P2"]
-                d._warn_if_mesh_exist = lambda m_: None
-                return d
-            d, d2 = mk(), mk()
-            d.copy = lambda with_mesh=True: d2
-            origin = (1.5, -2.0)
-            if op == "rotate":
-                r = d.rotate(30.0, origin=origin)
-                want = [("rotate", 30.0, origin)] * 2
-                polys_ok = sorted(m_[0] for m_ in moved) == ["film", "h1", "h2", "src"] and all(m_[1:] == ("rotate", 30.0, origin, True) for m_ in moved)
-            else:
-                r = d.scale(xfact=2.0, yfact=-0.5, origin=origin)
-                want = [("scale", 2.0, -0.5, origin)] * 2
-                polys_ok = sorted(m_[0] for m_ in moved) == ["film", "h1", "h2", "src"] and all(m_[1:] == ("scale", 2.0, -0.5, origin, True) for m_ in moved)
-            pp = getattr(r, "probe_points", None)
-            ok = isinstance(pp, list) and [getattr(x, "xy", None) for x in pp] == ["P1", "P2"] and [getattr(x, "how", None) for x in pp] == want
-            sym.check_terms(f"C18.device_transform.every_polygon_mapped_in_place_on_the_copy[{op}]", bool(polys_ok and r is d2), note=str(moved)[:200])
-            sym.check_terms(f"C18.device_transform.probe_points_go_through_the_same_map_as_the_polygons[{op}]", bool(ok), note=str([(getattr(x, "xy", x), getattr(x, "how", None)) for x in (pp or [])])[:300])
+        import tdgl
+        if prefixes:
+            sym.ctx().record_prefixes = tuple(prefixes)
+        origin = (1.5, -2.0)
+        probes = np.array([[0.25, 0.5], [-1.0, 2.0]])
+        for units_ in ("nm", "mm"):
+            for op in ("rotate", "scale", "translate", "copy"):
+                polys = dict(film=Poly("film"), h1=Poly("h1"), h2=Poly("h2"), src=Poly("src"), drn=Poly("drn"))
+                layer = tdgl.Layer(coherence_length=0.7, london_lambda=3.0, thickness=0.2, gamma=5.0, z0=0.4)
+                d = Device("dev", layer=layer, film=polys["film"], holes=[polys["h1"], polys["h2"]], terminals=[polys["src"], polys["drn"]], probe_points=probes.copy(), length_units=units_)
+                if op == "rotate":
+                    r, want = d.rotate(30.0, origin=origin), ("rotate", 30.0, origin)
+                    th = math.radians(30.0)
+                    wp = np.stack([origin[0] + math.cos(th) * (probes[:, 0] - origin[0]) - math.sin(th) * (probes[:, 1] - origin[1]),
+                                   origin[1] + math.sin(th) * (probes[:, 0] - origin[0]) + math.cos(th) * (probes[:, 1] - origin[1])], axis=1)
+                elif op == "scale":
+                    r, want = d.scale(xfact=2.0, yfact=-0.5, origin=origin), ("scale", 2.0, -0.5, origin)
+                    wp = np.stack([origin[0] + 2.0 * (probes[:, 0] - origin[0]), origin[1] - 0.5 * (probes[:, 1] - origin[1])], axis=1)
+                elif op == "translate":
+                    r, want = d.translate(dx=0.75, dy=-1.25), ("translate", 0.75, -1.25)
+                    wp = probes + np.array([[0.75, -1.25]])
+                else:
+                    r, want = d.copy(), None
+                    wp = probes
+                tag = f"{op}; {units_}"
+                isdev = isinstance(r, Device) and r is not d
+                sym.check_terms(f"C18.device_transform.returns_a_new_device[{tag}]", bool(isdev))
+                if not isdev:
+                    continue
+                got = dict(film=r.film, h1=r.holes[0] if len(r.holes) == 2 else None, h2=r.holes[1] if len(r.holes) == 2 else None,
+                           src=r.terminals[0] if len(r.terminals) == 2 else None, drn=r.terminals[1] if len(r.terminals) == 2 else None)
+                okp = all(isinstance(g, Poly) and g.root is polys[k] and g.hist == ([want] if want else []) for k, g in got.items())
+                sym.check_terms(f"C18.device_transform.every_polygon_mapped_once_with_the_given_parameters[{tag}]", bool(okp), note=str({k: getattr(g, "hist", None) for k, g in got.items()})[:300])
+                sym.check_terms(f"C18.device_transform.receiver_not_mapped_and_nothing_shared[{tag}]",
+                                bool(all(p.hist == [] for p in polys.values()) and all(g is not polys[k] for k, g in got.items()) and d.film is polys["film"]
+                                     and np.array_equal(d.probe_points, probes) and (r.probe_points is None or not np.shares_memory(r.probe_points, d.probe_points))))
+                pp = r.probe_points
+                sym.check_terms(f"C18.device_transform.probe_points_go_through_the_same_map_as_the_polygons[{tag}]",
+                                bool(pp is not None and np.shape(pp) == wp.shape and np.allclose(np.asarray(pp, dtype=float), wp, rtol=1e-12, atol=1e-12)), note=str(pp)[:200])
+                lay = r.layer
+                same_layer = all(getattr(lay, q, None) == getattr(layer, q) for q in ("coherence_length", "london_lambda", "thickness", "gamma", "z0", "u", "conductivity"))
+                sym.check_terms(f"C08.device_transform.name_layer_and_length_units_are_those_of_the_receiver[{tag}]",
+                                bool(r.name == d.name and r.length_units == units_ and same_layer and lay is not layer), note=f"units {getattr(r, 'length_units', None)!r} name {r.name!r}")
     obls, n = explore(body)
     return dict(obls=obls, paths=n, sources=[L.info()], consistent=True)
 
@@ -482,9 +505,25 @@ def native(seed=0, trials=60):
         return 0.5 * np.sum(x[:-1] * y[1:] - x[1:] * y[:-1])
 
     def shape():
-        kind = rng.choice(["box", "circle", "ellipse"])
+        kind = rng.choice(["box", "circle", "ellipse", "L", "star", "C"])
         c = tuple(rng.uniform(-1, 1, 2))
-        if kind == "box":
+        if kind in ("L", "star", "C"):
+            # non-convex outlines: a set operation must not rely on convexity of either operand
+            if kind == "L":
+                w, h, t_ = rng.uniform(1.5, 3), rng.uniform(1.5, 3), rng.uniform(0.3, 0.8)
+                pts = np.array([[0, 0], [w, 0], [w, t_], [t_, t_], [t_, h], [0, h]], dtype=float)
+            elif kind == "C":
+                w, h, t_ = rng.uniform(1.5, 3), rng.uniform(1.5, 3), rng.uniform(0.3, 0.6)
+                pts = np.array([[0, 0], [w, 0], [w, t_], [t_, t_], [t_, h - t_], [w, h - t_], [w, h], [0, h]], dtype=float)
+            else:
+                m_ = int(rng.integers(4, 8))
+                ang = np.linspace(0, 2 * np.pi, 2 * m_, endpoint=False)
+                rad = np.where(np.arange(2 * m_) % 2 == 0, rng.uniform(1.2, 2.0), rng.uniform(0.3, 0.6))
+                pts = np.stack([rad * np.cos(ang), rad * np.sin(ang)], axis=1)
+            pts = pts - pts.mean(axis=0) + np.array(c)
+            th_ = np.radians(rng.uniform(0, 360))
+            pts = pts @ np.array([[np.cos(th_), np.sin(th_)], [-np.sin(th_), np.cos(th_)]])
+        elif kind == "box":
             pts = box(float(rng.uniform(0.5, 3)), float(rng.uniform(0.5, 3)), points=int(rng.integers(8, 60)), center=c)
         elif kind == "circle":
             pts = circle(float(rng.uniform(0.4, 1.5)), points=int(rng.integers(8, 60)), center=c)
@@ -520,6 +559,24 @@ def native(seed=0, trials=60):
             if np.any((got != want) & ~near):
                 bad.append(dict(what=f"{nm} disagrees with point-wise membership", trial=t, n_wrong=int(np.sum((got != want) & ~near))))
         if t < 3:
+            # a small shape whose corners all lie inside a non-convex shape while one of its edges crosses a notch of it
+            ell_ = tdgl.Polygon("L", points=np.array([[0, 0], [3, 0], [3, 1], [1, 1], [1, 3], [0, 3]], dtype=float))
+            tri = tdgl.Polygon("tri", points=np.array([[0.5, 2.5], [2.5, 0.5], [0.5, 0.5]], dtype=float) + rng.uniform(-0.05, 0.05, 2))
+            gq = rng.uniform(-0.5, 3.5, size=(3000, 2))
+            i1, i2 = ell_.contains_points(gq), tri.contains_points(gq)
+            for nm, op, want in (("union", lambda: ell_ + tri, i1 | i2), ("intersection", lambda: ell_ * tri, i1 & i2), ("difference", lambda: ell_ - tri, i1 & ~i2),
+                                 ("union (swapped)", lambda: tri + ell_, i1 | i2), ("intersection (swapped)", lambda: tri * ell_, i1 & i2)):
+                n += 1
+                try:
+                    r = op()
+                except ValueError:
+                    continue
+                near = np.zeros(len(gq), dtype=bool)
+                for poly in (ell_, tri):
+                    near |= poly.contains_points(gq, radius=1e-6) != poly.contains_points(gq, radius=-1e-6)
+                if np.any((r.contains_points(gq) != want) & ~near):
+                    bad.append(dict(what=f"{nm} of a non-convex shape and a shape whose corners lie inside it disagrees with point-wise membership",
+                                    n_points_wrong=int(np.sum((r.contains_points(gq) != want) & ~near)), area_returned=float(r.area)))
             # operations whose true result has several pieces: refused (ValueError) or, if answered, point-wise right
             bar = tdgl.Polygon("bar", points=box(4, 1))
             slit = tdgl.Polygon("slit", points=box(0.5, 2))
@@ -592,6 +649,18 @@ def native(seed=0, trials=60):
             n += 1
             if not np.allclose(sc.probe_points, want_sc, atol=1e-9) or not np.all(sc.contains_points(sc.probe_points)):
                 bad.append(dict(what="probe points of a scaled device are not the scaled probe points", factors=(fx_, fy_), origin=org))
+    # a transformed / copied device is the same device elsewhere: name, layer and LENGTH UNITS are kept (the unit system is part of the device)
+    import warnings
+    for lu in ("nm", "mm"):
+        d0 = tdgl.Device("unit-device", layer=tdgl.Layer(coherence_length=0.7, london_lambda=3.0, thickness=0.2, z0=0.1), film=tdgl.Polygon("film", points=box(4, 3)),
+                         holes=[tdgl.Polygon("h", points=circle(0.4))], probe_points=[(1.0, 0.5), (-1.0, 0.5)], length_units=lu)
+        with warnings.catch_warnings():
+            warnings.simplefilter("ignore")
+            for nm, q in (("rotate", d0.rotate(40.0)), ("scale", d0.scale(xfact=1.5, yfact=-1.0)), ("translate", d0.translate(dx=0.5, dy=-0.25)), ("copy", d0.copy())):
+                n += 1
+                if q.length_units != lu or q.name != d0.name or q.layer != d0.layer or str(q.coherence_length.units) != str(d0.coherence_length.units):
+                    bad.append(dict(what=f"Device.{nm}() returns a device with other length units / name / layer than the device it was applied to",
+                                    length_units=lu, got_units=q.length_units, got_name=q.name))
     for t in range(10):
         film = tdgl.Polygon("film", points=box(6, 6))
         holes = [tdgl.Polygon(f"h{i}", points=circle(0.5, center=(-1.8 + 1.8 * i, 0.3 * i))) for i in range(int(rng.integers(0, 4)))]
